@@ -582,7 +582,10 @@ pub fn c04(rec: &mut Rec, rng: &mut Rng, thorough: bool) {
                     }
                 }
                 let pre = if variant % 2 == 1 { "GET /first HTTP/1.1\r\n\r\n" } else { "" };
-                let head = format!("{}PUT /x HTTP/1.1\r\nX-A: b\r\nContent-Length: {}\r\nExpect: 100-continue\r\n\r\n", pre, n).into_bytes();
+                // (every third case: the header line in front of Content-Length ends in a bare CR — CR CR LF in the stream;
+                // the line still ends at its CRLF and the declaration that follows is seen)
+                let xa = if (n as usize + variant) % 3 == 0 { "X-A: b\r" } else { "X-A: b" };
+                let head = format!("{}PUT /x HTTP/1.1\r\n{}\r\nContent-Length: {}\r\nExpect: 100-continue\r\n\r\n", pre, xa, n).into_bytes();
                 // the head only: no body byte is offered
                 let cuts = gen::cuts(rng, &head, 4 + variant);
                 let mut last = String::new();
